@@ -159,6 +159,19 @@ def shape_facts(repo, vals, pre):
             len(re.findall(r"\bticksize\s*[-+*/|&^]?=[^=]", body)) == 1 and "format" not in body:
         tfargs = 1
     facts["tempoFactorCap"], facts["tempoFactorScale"], facts["tempoFactorArgs"] = tfcap, tfscale, tfargs
+    # xmp_play_frame (player.c): the sequencing half of the frame - everything before libxmp_mixer_softmixer - must not
+    # look at a volume / output setting, and the per-tick channel update must run for every virtual channel:
+    #   for (i = 0; i < p->virt.virt_channels; i++) { play_channel(ctx, i); }
+    ply = strip_comments(open(os.path.join(repo, "src", "player.c")).read())
+    pf = function_body(ply, "xmp_play_frame") or ""
+    head = pf.split("libxmp_mixer_softmixer")[0] if "libxmp_mixer_softmixer" in pf else ""
+    loop = None
+    m = re.search(r"for\s*\(\s*i\s*=\s*0\s*;\s*i\s*<\s*p->virt\.virt_channels\s*;\s*i\+\+\s*\)\s*\{\s*play_channel\s*\(\s*ctx\s*,\s*i\s*\)\s*;\s*\}", head)
+    if m and len(re.findall(r"\bplay_channel\s*\(", head)) == 1:
+        loop = 1
+    facts["tickLoopUnconditional"] = loop
+    cfg_fields = ["master_vol", "smix_vol", "channel_mute", "channel_vol", "amplify", "mix", "interp", "format", "freq", "dsp", "numvoc"]
+    facts["playFrameConfigReads"] = None if not head else sorted({f for f in cfg_fields if re.search(r"(->|\.)%s\b" % f, head)})
     return facts
 
 
@@ -207,14 +220,21 @@ def generate(repo=None):
         "ampMin": "lowest value xmp_set_player(XMP_PLAYER_AMP) accepts", "ampMax": "highest value it accepts",
         "tempoFactorCap": "bound CAP of `if (ticksize < 0 || ticksize > (CAP)) return -1;` in xmp_set_tempo_factor (constant expression only)",
         "tempoFactorScale": "N of `val *= N;` in xmp_set_tempo_factor",
+        "tickLoopUnconditional": "1 when the per-tick channel loop of xmp_play_frame is exactly `for (i = 0; i < p->virt.virt_channels; i++) "
+                                 "{ play_channel(ctx, i); }` and play_channel is called nowhere else before the mixer",
         "tempoFactorArgs": "1 when the tick size tested by xmp_set_tempo_factor is exactly `libxmp_mixer_get_ticksize(s->freq, val, m->rrate, p->bpm)`, "
                            "assigned once, and the function does not mention the output format",
     }
     for k in ("shift8Amp0", "shift8Amp1", "shift16Amp0", "shift16Amp1", "offs8Unsigned", "offs16Unsigned", "ampMin", "ampMax",
-              "ticksizeCapGuard", "ticksizeCapAssigned", "tempoFactorCap", "tempoFactorScale", "tempoFactorArgs"):
+              "ticksizeCapGuard", "ticksizeCapAssigned", "tempoFactorCap", "tempoFactorScale", "tempoFactorArgs", "tickLoopUnconditional"):
         v = facts[k]
         out.append("/-- %s (recognised from the code shape; `none` = not recognised) -/\ndef %s : Option Int := %s" % (
             doc[k], k, "none" if v is None else "some %s" % lean_int(v)))
+    pr = facts["playFrameConfigReads"]
+    out.append("/-- volume / output-configuration fields (master_vol, smix_vol, channel_mute, channel_vol, amplify, mix, interp, format, freq, "
+               "dsp, numvoc) that the body of xmp_play_frame mentions before it calls libxmp_mixer_softmixer (`none` = function not recognised) -/")
+    out.append("def playFrameConfigReads : Option (List String) := %s" % (
+        "none" if pr is None else "some [%s]" % ", ".join('"%s"' % f for f in pr)))
     out += ["", "end Xmp.Gen.MixerConsts", ""]
     path = os.path.join(vlib.LEAN, "XmpModel", "Gen", "MixerConsts.lean")
     changed = vlib.write_if_changed(path, "\n".join(out))
